@@ -43,6 +43,7 @@ func init() {
 	scanKinds["global_const_slice"] = scanGlobalConstSlice
 	scanKinds["global_newint"] = scanGlobalNewInt
 	scanKinds["global_const"] = scanGlobalConst
+	scanKinds["defer_recover"] = scanDeferRecover
 	scanKinds["handler_census"] = scanHandlerCensus
 	scanKinds["only_callers"] = scanOnlyCallers
 }
@@ -187,6 +188,50 @@ func scanGlobalConst(P *Program, sp ScanSpec) []*OblResult {
 		return []*OblResult{scanResult(sp.Name, "F8", false, fmt.Sprintf("%s = %s, contract requires %s", sp.Args["name"], got, sp.Args["value"]))}
 	}
 	return []*OblResult{scanResult(sp.Name, "F8", true, fmt.Sprintf("%s = %s, single store in init", sp.Args["name"], sp.Args["value"]))}
+}
+
+// defer_recover: function Args[func] installs, before its first call, a deferred function that calls
+// recover(); so a panic in anything it calls afterwards does not leave the function.
+func scanDeferRecover(P *Program, sp ScanSpec) []*OblResult {
+	fn := P.FindFunc(sp.Args["func"])
+	if fn == nil || len(fn.Blocks) == 0 {
+		return []*OblResult{scanResult(sp.Name, "F8", false, "function not found: "+sp.Args["func"])}
+	}
+	callsRecover := func(f *ssa.Function) bool {
+		if f == nil {
+			return false
+		}
+		for _, b := range f.Blocks {
+			for _, in := range b.Instrs {
+				if c, ok := in.(*ssa.Call); ok {
+					if bi, ok := c.Call.Value.(*ssa.Builtin); ok && bi.Name() == "recover" {
+						return true
+					}
+				}
+			}
+		}
+		return false
+	}
+	for _, in := range fn.Blocks[0].Instrs {
+		switch in := in.(type) {
+		case *ssa.Defer:
+			var f *ssa.Function
+			switch v := in.Call.Value.(type) {
+			case *ssa.MakeClosure:
+				f, _ = v.Fn.(*ssa.Function)
+			case *ssa.Function:
+				f = v
+			}
+			if callsRecover(f) {
+				return []*OblResult{scanResult(sp.Name, "F8", true, "deferred recover installed before the first call")}
+			}
+		case *ssa.Call:
+			if _, isBuiltin := in.Call.Value.(*ssa.Builtin); !isBuiltin {
+				return []*OblResult{scanResult(sp.Name, "F8", false, "a call precedes the deferred recover: "+in.String())}
+			}
+		}
+	}
+	return []*OblResult{scanResult(sp.Name, "F8", false, "no deferred recover in the entry block")}
 }
 
 func rootGlobal(v ssa.Value) *ssa.Global {
